@@ -99,22 +99,28 @@ def random_bundles(seed, n):
         ids.append(i)
       return ids
 
+    def can_address(t):
+      return sloppy or made[t] or live[t]
+
     for _a in range(rnd.randint(2, 7)):
       t = rnd.choice(("A", "B"))
       kind = rnd.choice(("Add",) * 7 + ("BulkAdd",) * 4 + ("Upd",) * 4 + ("BulkUpd",) * 2 +
                         ("Rem",) * 2 + ("BulkRem",))
       value += 100
+      if kind not in ("Add", "BulkAdd") and not can_address(t):
+        kind = "Add"
       if kind in ("Add", "BulkAdd"):
         count = 1 if kind == "Add" else rnd.choice((1, 2, 2, 3))
         ids = []
         for _j in range(count):
           x = rnd.random()
           if x < 0.65:
-            ids.append(rnd.choice(POOL))
+            free = [i for i in POOL if i not in ids]
+            ids.append(rnd.choice(free if free and rnd.random() < 0.9 else POOL))
           elif x < 0.9:
             ids.append(0)
           else:
-            ids.append(top[t] + rnd.choice((3, 4, 7)))
+            ids.append(max([top[t]] + [i for i in ids if i > 0]) + rnd.choice((9, 10, 12)))
         col, vals = payload(t, count, False)
         acts.append({"k": kind, "t": t, "ids": ids, "s": [value + j for j in range(count)],
                      "col": col, "vals": vals})
